@@ -283,6 +283,27 @@ def c_opt_map_or_else(eng, st, fr, f, args, site):
     return outs
 
 
+@contract(r"^(std|core)::option::Option::<T>::(or|or_else)$")
+def c_opt_or(eng, st, fr, f, args, site):
+    """`a.or(b)` / `a.or_else(f)`: a when it is Some, otherwise b / f()."""
+    e, _ = as_enum(eng, st, args[0])
+    rt = ret_ty(eng, site)
+    if e is None or rt is None:
+        return None
+    outs = []
+    for ns, vi, fs in split_variants(eng, st, e, None):
+        if vi != 0:
+            outs.append((ns, Enum(rt, ((vi, fs),), "opt")))
+        elif f["path"].endswith("or_else"):
+            rs = call_closure(eng, ns, fr, args[1], [], site)
+            if rs is None:
+                return None
+            outs.extend(rs)
+        else:
+            outs.append((ns, args[1]))
+    return outs
+
+
 @contract(r"^(std|core)::option::Option::<T>::(filter)$")
 def c_opt_filter(eng, st, fr, f, args, site):
     e, _ = as_enum(eng, st, args[0])
